@@ -265,6 +265,10 @@ def main(argv=None):
     ctx.only_key = only_key
     try:
         mod = importlib.import_module(f'harness.drivers.{prop.lower()}')
+        if os.environ.get('VERIF_NO_WARMUP') != '1' and prop != 'C09':
+            # C09 judges history dependence itself (and needs the untouched process for its references)
+            from . import warmup
+            ctx.extra['hostile_history_warmup'] = warmup.hostile_history(seed)
         mod.run(ctx)
         rc = ctx.finish()
     except MachineryError as e:
